@@ -72,9 +72,9 @@ PROPS = {
     },
     'C08': {
         'title': 'State data exists exactly while its state is current and starts fresh on entry',
-        'level_text': "Proof (C08.new_establishes, fresh_on_entry, ok_preserves, err_preserves, mutation_preserves, accessor_total, absent_elsewhere; C08Hist.step_preserves_inv, inv_along_history, read_iff_in_state: the invariant is preserved by every operation of the public API and therefore holds at every point of every history): the invariant 'slot of X present iff machine in X' is established by new (initial state's data = Default), re-established by every Ok of every generated method under arbitrary hooks (including in-place mutation by callbacks), kept by refusals and mutations; on every entry (self-transitions included) the target slot is Default and all others empty; hence the infallible accessor never panics. RefineData.cell_refines/new_related: along every history of handle, reader, mutable accessor and setter the data of X is an abstract cell - absent outside X, Default on entry, latest stored value while in X.",
+        'level_text': "Proof (C08.new_establishes, fresh_on_entry, ok_preserves, err_preserves, mutation_preserves, accessor_total, absent_elsewhere; C08Hist.step_preserves_inv, inv_along_history, read_iff_in_state: the invariant is preserved by every operation of the public API and therefore holds at every point of every history): the invariant 'slot of X present iff machine in X' is established by new (initial state's data = Default), re-established by every Ok of every generated method under arbitrary hooks (including in-place mutation by callbacks), kept by refusals and mutations; on every entry (self-transitions included) the target slot is Default and all others empty; hence the infallible accessor never panics. RefineData.cell_refines/new_related: along every history of handle, reader, mutable accessor and setter the data of X is an abstract cell - absent outside X, Default on entry, latest stored value while in X. RefineDataW.cell_refines_w: the same with before/after callbacks that write state data through &mut self - a before callback's write goes to the consumed machine and is never seen, the after callbacks of the entering transition overwrite Default in declaration order.",
         'level_note': 'Side condition: storage field names pairwise distinct (N2; otherwise E0124). Data on superstates is modelled and token-checked; the invariant covers it too (never present). Ties: T2 regions CT CN SA XA, T3 walk/data families reading every slot after every step. History: the unchanged snapshot violated this at construction (F1), fixed by /repo commit e370adb.',
-        'modules': ['SMV.Props.C08', 'SMV.Props.C08Hist', 'SMV.Props.RefineData'],
+        'modules': ['SMV.Props.C08', 'SMV.Props.C08Hist', 'SMV.Props.RefineData', 'SMV.Props.RefineDataW'],
         'regions': ['CT', 'CN', 'SA', 'XA'],
         't3': ['walk', 'assign', 'abandon', 'susp'],
         'design_ref': 'DESIGN.md §7 C08',
@@ -102,7 +102,7 @@ PROPS = {
         'title': 'Dynamic data accessors and setters are gated by the current state',
         'level_text': "Proof (C11.leaf_acc, read_gated, set_gated, read_after_set, read_after_write, set_other_slots, agrees_with_typed): for the data of a leaf state X the generated reader returns a value iff the wrapper is in X, the setter stores iff in X and otherwise changes nothing and returns WrongState{expected X, actual current state (or <extracted>), operation set_x_data}; what is set or written is what is read; the reader agrees with the typed accessor after conversion. RefineData.cell_refines lifts this to every history: each read returns the latest value stored since X was last entered (Default if none), nothing in any other state.",
         'level_note': 'With C08 (slot present iff in X) the reader returns Some iff in X. Ties: T2 regions DA AS, T3 walk/abandon.',
-        'modules': ['SMV.Props.C11', 'SMV.Props.RefineData'],
+        'modules': ['SMV.Props.C11', 'SMV.Props.RefineData', 'SMV.Props.RefineDataW'],
         'regions': ['DA', 'AS'],
         't3': ['walk', 'abandon'],
         'design_ref': 'DESIGN.md §7 C11',
